@@ -44,12 +44,20 @@ func remoteEntry(b *BaseStore, env *vstubodb.Env, id *idp.Identity, payload []by
 
 // c12Head builds one head of a decoded head-exchange message in which every
 // structurally optional part is independently absent or present.
-func c12Head(b *BaseStore, k int) *entry.Entry {
+func c12Head(b *BaseStore, k int, victim ipfslog.Entry) *entry.Entry {
 	if vstub.NdChoice("head-nil", 2) == 1 {
 		return nil // JSON null
 	}
 	e := &entry.Entry{LogID: b.id, V: 2, Payload: []byte("x")}
-	switch vstub.NdChoice("identity", 3) {
+	copied := false
+	switch vstub.NdChoice("identity", 4) {
+	case 3:
+		// a byte-level mutation of a REAL message: identity block, key and signature are
+		// those of the valid entry (all public), the payload differs
+		e.Identity = victim.GetIdentity()
+		e.Key = victim.GetKey()
+		e.Sig = victim.GetSig()
+		copied = true
 	case 0: // absent
 	case 1: // a writer's id (the field an attacker copies), signatures missing
 		e.Identity = &idp.Identity{ID: b.identity.ID, PublicKey: []byte("pk-mallory"), Type: "orbitdb"}
@@ -60,13 +68,18 @@ func c12Head(b *BaseStore, k int) *entry.Entry {
 	if vstub.NdChoice("clock", 2) == 1 {
 		e.Clock = &entry.LamportClock{ID: []byte("pk-mallory"), Time: vstub.NdInt("time")}
 	}
-	if vstub.NdChoice("hash", 2) == 1 {
+	switch vstub.NdChoice("hash", 3) {
+	case 1:
 		e.Hash = vstub.MkCid(100 + k)
+	case 2:
+		// the malformed head is announced under the address of a VALID entry the
+		// replica has not merged yet (its public fields can be copied by anybody)
+		e.Hash = victim.GetHash()
 	}
 	if vstub.NdChoice("next", 2) == 1 {
 		e.Next = []cid.Cid{vstub.MkCid(200 + k)}
 	}
-	if vstub.NdChoice("keysig", 2) == 1 {
+	if !copied && vstub.NdChoice("keysig", 2) == 1 {
 		e.Key = []byte("pk-mallory")
 		e.Sig = []byte("garbage")
 	}
@@ -85,10 +98,14 @@ func VerifC12Heads() {
 	if b == nil {
 		return
 	}
+	valid := remoteEntry(b, env, env.Identity, []byte("ok"))
+	if valid == nil {
+		return
+	}
 	n := 1 + vstub.NdChoice("nheads", maxHeads)
 	var heads []*entry.Entry
 	for k := 0; k < n; k++ {
-		heads = append(heads, c12Head(b, k))
+		heads = append(heads, c12Head(b, k, valid))
 	}
 	msg := &iface.MessageExchangeHeads{Address: b.id, Heads: heads}
 	payload, err := b.messageMarshaler.Marshal(msg)
@@ -99,10 +116,6 @@ func VerifC12Heads() {
 	topic := env.PubSub.Topics[b.id]
 	if topic == nil {
 		vstub.Fail("C12 store did not subscribe to its topic")
-		return
-	}
-	valid := remoteEntry(b, env, env.Identity, []byte("ok"))
-	if valid == nil {
 		return
 	}
 	good, _ := b.messageMarshaler.Marshal(&iface.MessageExchangeHeads{Address: b.id, Heads: []*entry.Entry{valid.(*entry.Entry)}})
